@@ -298,6 +298,7 @@ func c11genFile(c *core.Ctx, i int, r *rand.Rand) *c11file {
 }
 
 var c11hook *gcHook
+var c11prev *c11file
 var c11bg struct {
 	once sync.Once
 	stop atomic.Bool
@@ -364,8 +365,15 @@ func runC11(c *core.Ctx, i int) {
 	h.budget = int64(c.Pick(100, 600))
 	h.forced.Store(0)
 	h.enabled.Store(true)
+	if c11prev != nil && i%2 == 1 {
+		// the documented way of reading first: the previous case's file (another type), every record's bank closed in
+		// the callback. The banks this read retains are then drawn from a pool of banks that served other types.
+		lib.ReadEach(c11prev.file, c11prev.t.RT(), false, func(int, reflect.Value) error { return nil })
+		c.Count("reads-after-recycled-banks", 1)
+	}
 	got, err := lib.ReadAll(f.file, rt, i%2 == 0)
 	h.enabled.Store(false)
+	c11prev = f
 	c.Eval(1)
 	if err != nil {
 		c.Violate("read-error", fmt.Sprintf("ReadFile failed under forced collections: %v [%s]", err, f.desc), map[string]any{"file": f.desc})
